@@ -69,7 +69,8 @@ def parseArg (t : String) : Option Arg :=
         | none => some (.s (if v == "~" then "" else v))
     else if k == "u" then some (match v.toNat? with | some n => .u n | none => .badnum)
     else if k == "b" then some (.b (v == "1"))
-    else if k == "x" || k == "f" || k == "ibtp" || k == "addrs" then some (.s v)      -- bytes / float arguments: opaque to the model
+    else if k == "x" || k == "ibtp" || k == "addrs" then some .opq      -- bytes arguments: opaque to the model
+    else if k == "f" || k == "raw" then some .badnum                    -- float / raw-typed arguments fit no modelled signature
     else if k == "i" then some (match parseInt? v with | some n => .i n | none => .badnum)
     else none
   | _ => none
@@ -94,14 +95,18 @@ def parseTx (t : List String) : Option Tx :=
       let typ := if typ == "req" then some IType.interchain else if typ == "ok" then some .receiptSuccess
         else if typ == "fail" then some .receiptFailure else if typ == "rb" then some .receiptRollback
         else typ.toNat?.map IType.other
-      let pk := if pk == "ok" then some ProofKind.ok else if pk == "none" then some .none else if pk == "bad" then some .bad else none
+      let pk := if pk == "ok" then some ProofKind.ok else if pk == "none" then some .none else if pk == "bad" then some .bad else if pk == "false" then some .plainFalse else none
       match typ, pk with
       | some typ, some pk => some (.ibtp signer { frm := parseSvc f, to := parseSvc to, index := idx, typ := typ, timeout := tmo, group := grp } pk)
-      | _, _ => none
-    | _, _, _ => none
+      | _, _ => some (.bvm signer "?ibtp" "?" [])
+    -- an IBTP whose index / timeout / group the op language cannot express (malformed group keys, ...): outside the model
+    | _, _, _ => some (.bvm signer "?ibtp" "?" [])
   | "bvm" :: signer :: c :: m :: args =>
     let as := args.map parseArg
     if as.all Option.isSome then some (.bvm signer c m (as.filterMap id)) else none
+  -- raw payloads / raw transaction data: outside the model (a failed or successful receipt the model does not predict)
+  | "raw" :: signer :: _ => some (.bvm signer "?" "?" [])
+  | "rawtd" :: signer :: _ => some (.bvm signer "?" "?" [])
   | _ => none
 
 def splitTxs (ws : List String) : List (List String) :=
